@@ -3,7 +3,6 @@ from .common import budget
 
 HARNESS = "c01"
 CONST_GROUPS = ["message"]
-READY = False
 RULE = ("one case = one session on a fresh trie (emitter or mqtt matcher): sub / unsub / look / count / dump over ssids built "
         "from 2 contracts and a 4-word alphabet plus '+', '#' and $share groups, depth <= 5, 1-6 subscribers each owning "
         "several filters, duplicate subscribes, unsubscribes of absent pairs, permuted and repeated levels; every session "
